@@ -176,7 +176,12 @@ fn reissue(w: &World, genuine: &MlsMessage, from: From, outsider: usize) -> Opti
     MlsMessage::mls_decode(&mut &*out).ok()
 }
 
-fn summary(d: &CommitMessageDescription) -> Option<(BTreeMap<String, usize>, BTreeMap<String, usize>)> {
+/// A member's public proposal re-issued as external sender 0 (used by checks/c10y.rs).
+pub fn reissue_as_external(w: &World, genuine: &MlsMessage) -> Option<MlsMessage> {
+    reissue(w, genuine, From::External, 0)
+}
+
+pub fn summary(d: &CommitMessageDescription) -> Option<(BTreeMap<String, usize>, BTreeMap<String, usize>)> {
     let ne = match &d.effect {
         CommitEffect::NewEpoch(n) => n,
         CommitEffect::Removed { new_epoch, .. } => new_epoch,
